@@ -21,7 +21,7 @@ SPEC = {
     "race": True,
     "theorems": ["C08_ok", "C08_written_before_done", "C08_done_once_per_scheduling", "C08_store_is_last_write",
                  "C08_stop_waits", "C08_stop_waits_state", "C08_racing_enqueue_all_or_nothing",
-                 "C08_late_enqueue_backs_out", "C08_no_block_forever_partial", "C08_statement_safety",
+                 "C08_late_enqueue_backs_out", "C08_no_block_forever_partial", "C08_waits_for_ranked", "C08_statement_safety",
                  "C08_old_racing_enqueue_witness", "C08_old_stop_waits_witness", "C08_old_no_block_forever_witness",
                  "C08_old_statement_witness", "C08_skeleton_Enqueue", "C08_skeleton_startBatchWriter",
                  "C08_skeleton_StopBatchWriter", "C08_skeleton_Flush", "C08_skeleton_runBatchWriter",
@@ -34,7 +34,7 @@ SPEC = {
                  "store errors (Batched()/Commit() failing => writer panics), Int32 overflow of scheduledCount and batch size 0 are NOT modelled",
                  "BatchWriteObject implementations are the harness's (flag test-and-set, version counter)"],
     "manifest": {
-        "text": "Protocol model (Hive.Conc.Sys) of BatchedWriter Enqueue/Stop/Flush/writer goroutine/collector with arbitrary queue size, batch size and thread pool; the property is the decidable trace predicate Spec.BatchWriter.ok/okFinal. Full-strength theorems over every reachable configuration, no hypothesis on the schedule: C08_ok (no check of the predicate ever fails), C08_written_before_done, C08_done_once_per_scheduling, C08_store_is_last_write, C08_stop_waits (per Stop call, any number of overlapping Stop callers), C08_stop_waits_state, C08_racing_enqueue_all_or_nothing (okFinal once the writer has terminated), C08_late_enqueue_backs_out, C08_statement_safety. Partial: C08_no_block_forever_partial proves that no reachable configuration is a deadlock; eventual progress of every blocked call under fair scheduling (third clause of C08_statement) is not formalised. Two defects were repaired (writeWg.Add before go; Enqueue counts before it checks running); the old Enqueue protocol is kept as sysOld with proved violating schedules C08_old_racing_enqueue_witness, C08_old_stop_waits_witness, C08_old_no_block_forever_witness, C08_old_statement_witness. Tie: every run's event trace (harness BatchWriteObjects + store wrapper, one mutex-ordered log) is judged by the Lean driver with the same predicate and by an independent index-based Go oracle; stress runs have 1-3 concurrent Stop callers; the three formerly failing schedules and a two-overlapping-Stops schedule (BatchWrite held on a channel) are forced on the real code (verif yield point in Enqueue, BatchWriteScheduled callback) and must reproduce, per participant, the model's trace on the corresponding Lean schedule; regenerated synchronisation skeletons (C08_skeleton_*).",
+        "text": "Protocol model (Hive.Conc.Sys) of BatchedWriter Enqueue/Stop/Flush/writer goroutine/collector with arbitrary queue size, batch size and thread pool; the property is the decidable trace predicate Spec.BatchWriter.ok/okFinal. Full-strength theorems over every reachable configuration, no hypothesis on the schedule: C08_ok (no check of the predicate ever fails), C08_written_before_done, C08_done_once_per_scheduling, C08_store_is_last_write, C08_stop_waits (per Stop call, any number of overlapping Stop callers), C08_stop_waits_state, C08_racing_enqueue_all_or_nothing (okFinal once the writer has terminated), C08_late_enqueue_backs_out, C08_statement_safety. Partial: C08_no_block_forever_partial proves that no reachable configuration is a deadlock, C08_waits_for_ranked that every blocked call waits, through at most three resources taken in the fixed order Once > startStopMutex > WaitGroup/queue > writer goroutine, for a thread that can move (the Once is a lock class); eventual progress of every blocked call under fair scheduling (third clause of C08_statement) is not formalised. Two defects were repaired (writeWg.Add before go; Enqueue counts before it checks running); the old Enqueue protocol is kept as sysOld with proved violating schedules C08_old_racing_enqueue_witness, C08_old_stop_waits_witness, C08_old_no_block_forever_witness, C08_old_statement_witness. Tie: every run's event trace (harness BatchWriteObjects + store wrapper, one mutex-ordered log) is judged by the Lean driver with the same predicate and by an independent index-based Go oracle; stress runs have 1-3 concurrent Stop callers, batch time-outs negative / 0 / 1ns / 1..50 ms / 250 ms and batch and queue sizes 1..4 or the defaults; thousands of fresh writers per run race their very first Enqueue with StopBatchWriter (and a second Enqueue) from a spin barrier, each with a watchdog; the three formerly failing schedules and a two-overlapping-Stops schedule (BatchWrite held on a channel) are forced on the real code (verif yield point in Enqueue, BatchWriteScheduled callback) and must reproduce, per participant, the model's trace on the corresponding Lean schedule; regenerated synchronisation skeletons (C08_skeleton_*).",
         "note": "Trusted: Lean kernel; hand-written model of batch_writer.go/batch_collector.go (tied by trace predicate on real traces, forced-schedule replay, skeleton regeneration); Go sync primitive semantics (sequentially consistent atomics, Once, Mutex, WaitGroup, buffered channels, select) as modelled; store errors, counter overflow, batch size 0 not modelled; liveness only as deadlock freedom.",
         "technique": "Lean 4 inductive invariants over an interleaving semantics with arbitrary thread pools + decidable trace predicate evaluated on recorded traces + forced-schedule replay",
     },
